@@ -167,6 +167,18 @@ def run_real(cfg, ops, bell=0, bells=None):
                 seen.add(id(q))
                 handles.append(q)
 
+    # handles that are created *and* released inside one operation (the placeholders of EPR loop
+    # constructs) are seen at activation time; instance-level wrap, no hook in /repo
+    _activate = mm.activate_qubit
+
+    def activate_qubit(q):
+        if id(q) not in seen and not isinstance(q, FutureQubit):
+            seen.add(id(q))
+            handles.append(q)
+        _activate(q)
+
+    mm.activate_qubit = activate_qubit
+
     def body_fn(body):
         def f(q):
             for g in range(body["g"]):
@@ -335,7 +347,8 @@ def analyse(cfg, ops):
             if k == "ctx" and not op["sequential"] and op["n"] > cfg["maxq"]:
                 continue
             # the pairs are consumed inside the loop; sequential: one at a time
-            transient = 1 if (k == "seq" or op["sequential"]) else op["n"]
+            single = cfg["nv"] or cfg["transp"] or cfg["maxq"] == 1
+            transient = 1 if (k == "seq" or op["sequential"] or single) else op["n"]
             peak = max(peak, cnt() + transient)
             alive.extend([False] * op["n"])  # placeholders the program never sees as live
         elif k == "close":
